@@ -83,9 +83,21 @@ def seeded():
     return "\n".join(rows)
 
 
+def neutral():
+    rows = ["| id | what | result over the 20 checks |", "|---|---|---|"]
+    for d in sorted(glob.glob(os.path.join(V, "neutral/*/meta.json"))):
+        m = json.load(open(d))
+        nid = os.path.basename(os.path.dirname(d))
+        res = m.get("verif") or {}
+        bad = {k: v for k, v in res.items() if v != "ok"}
+        txt = ("all 20 OK" if res and not bad else ", ".join("%s: %s" % kv for kv in sorted(bad.items()))) if res else "not run"
+        rows.append("| %s | %s | %s |" % (nid, str(m.get("what", "")).replace("|", "/"), txt))
+    return "\n".join(rows)
+
+
 def main():
     p1 = open(os.path.join(V, "DESIGN_PART1.md")).read()
-    p1 = p1.replace("@@TABLE@@", table()).replace("@@FINDINGS@@", findings()).replace("@@SEEDED@@", seeded())
+    p1 = p1.replace("@@TABLE@@", table()).replace("@@FINDINGS@@", findings()).replace("@@SEEDED@@", seeded()).replace("@@NEUTRAL@@", neutral())
     p2 = open(os.path.join(V, "docs", "DESIGN_PART2.md")).read()
     with open(os.path.join(V, "DESIGN.md"), "w") as fh:
         fh.write(p1.rstrip("\n") + "\n\n---------------------------------------------------------------------------------------\n\n" + p2)
